@@ -212,6 +212,28 @@ theorem free_all_restores (usable : Nat) (ops : List BOp) (a : Arena)
   exact Arena.eq_of_skeleton_allFree hs (Arena.allFree_of_noUsed (hn (init_normal usable)) hnone)
     (initChunks_allFree 64 0 usable)
 
+/-- every block `malloc` hands out is at least of the smallest order the allocator manages
+(`2^minBits = 2·alignment ≥ sizeof(struct page)`): its header and free-list node fit inside it.
+Depends on the clamp in `malloc` (generated `Gen.blockSize`); false of the code before the fix. -/
+theorem malloc_order_ge_min (required : Nat) : Gen.minBits ≤ Buddy.orderOf required := by
+  have h32 : 32 ≤ Gen.blockSize required := by
+    unfold Gen.blockSize
+    split
+    · decide
+    · rename_i h; simp [Gen.alignment, Gen.alignmentBits] at h ⊢; omega
+  unfold Buddy.orderOf Buddy.orderOfSize
+  have : ¬ Gen.blockSize required ≤ 1 := by omega
+  simp only [this, if_false]
+  have h2 : 4 ≤ Nat.log2 (Gen.blockSize required - 1) := by
+    rw [Nat.le_log2 (by omega)]
+    omega
+  simp only [Gen.minBits, Gen.alignmentBits]
+  omega
+
+/-- the defect as found: without the clamp a request of 0 bytes gets a block of order 4 (16 bytes),
+smaller than the 24-byte `struct page` the allocator writes into it -/
+theorem malloc_zero_counterexample : Buddy.orderOfSize (Gen.blockSizeRaw 0) = 4 ∧ 4 < Gen.minBits := by decide
+
 -- non-vacuity: 1000 usable bytes = chunks of 512, 256, 128, 64, 32; two blocks allocated in the 512 chunk and freed in the other order
 example : (Buddy.init 1000).skeleton = [(9, 0), (8, 512), (7, 768), (6, 896), (5, 960)] := by decide
 example :
